@@ -255,3 +255,55 @@ def _type_scope_ob(name, vary):
 _type_scope_ob("type-own", {"d0", "thead"})
 _type_scope_ob("components", {"td", "comp", "thead"})
 _type_scope_ob("bindings", {"bd", "bind", "thead"})
+
+
+# ---------------------------------------------------------------------------------------
+# submodule scope: entities of a submodule are private unless given an explicit access
+# ---------------------------------------------------------------------------------------
+SUB_HEAD = ["submodule (parent) sub", "SUBMODULE (PARENT) SUB", "submodule(parent:mid) sub"]
+
+
+def replay_submodule(w):
+    f = parserh.parse_concrete(list(w["program"]))
+    sm = f.submodules[0]
+    got = {"variable": [v.permission for v in sm.variables], "type": [t.permission for t in sm.types],
+           "subroutine": [s_.permission for s_ in sm.subroutines]}
+    return got != w["expected"], {"program": w["program"], "ford": got, "fortran_rule": w["expected"]}
+
+
+@obligation("C04", "O4.submodule-scope", engine="SX(CV)", timeout=900)
+def submodule_scope(ctx):
+    """entities declared in a submodule are private by default; an explicit attribute overrides"""
+    import ford.sourceform as sf
+
+    ctx.encode_fn(sf.FortranContainer.__init__)
+    ctx.encode_fn(sf.FortranSubmodule._initialize)
+
+    def h(E):
+        hd = CV.choice(E, "head", SUB_HEAD)
+        vt, vattr = _slot(E, "var", KINDS["variable"][1][:6])
+        tt, tattr = _slot(E, "type", [("type t", None), ("type, public :: t", "public"), ("type, private :: t", "private")])
+        prog = [hd, vt, tt, "integer :: c", "end type t", "contains", "subroutine s()", "end subroutine s", "end submodule sub"]
+        E.e.snapshot = lambda m: {"program": choice.value_in_model(m, prog), "expected": choice.value_in_model(m, h.want)}
+        h.want = choice.apply(lambda a, b: {"variable": [a or "private"], "type": [b or "private"], "subroutine": ["private"]}, vattr, tattr)
+        f = parserh.parse(list(prog))
+        sm = f.submodules[0]
+        E.reachable("parsed")
+        E.require(choice.apply(lambda n: n == 1, len(sm.variables)), "variable missing")
+        E.require(choice.apply(lambda g, w_: g == w_["variable"][0], sm.variables[0].permission, h.want), "submodule variable accessibility")
+        E.require(choice.apply(lambda g, w_: g == w_["type"][0], sm.types[0].permission, h.want), "submodule type accessibility")
+        E.require(choice.apply(lambda g: g == "private", sm.subroutines[0].permission), "submodule procedure accessibility")
+
+    E = sym.Engine(ctx, max_paths=5000, incremental=True)
+    found = E.explore(h)
+    seen = set()
+    for (label, m, pc), snap in zip(found, E.snapshots):
+        if label in seen:
+            continue
+        seen.add(label)
+        ctx.report(label, snap, replay_submodule)
+    if E.reached.get("parsed"):
+        ctx.twins += 1
+    else:
+        ctx.inconclusive.append("vacuity: parser never completed")
+    ctx.sample({"heads": SUB_HEAD})
